@@ -3,6 +3,8 @@ package main
 import (
 	"encoding/json"
 	"fmt"
+	"go/scanner"
+	"go/token"
 	"os"
 	"strings"
 
@@ -74,6 +76,7 @@ func replayVisit(checker string) func(rc *runCtx, h *harness, v *interp.Violatio
 				root, category = "file", "file"
 			}
 			sources, notes = realise(model, specView(), root, category, 24)
+			sources = append(sources, realiseComments(model)...)
 		}
 		if len(sources) == 0 {
 			return false, "not realised: " + strings.Join(notes, "; ")
@@ -102,6 +105,12 @@ func replayVisit(checker string) func(rc *runCtx, h *harness, v *interp.Violatio
 				if r.Status == "OK" && r.Mutated {
 					confirmed, detail = i, "the real checker changed the syntax tree it was given"
 				}
+			case "assert":
+				if strings.HasPrefix(v.Msg, "pos:") && r.Status == "OK" && i < len(sources) {
+					if bad := badDiagnostic(sources[i], r.JSON); bad != "" {
+						confirmed, detail = i, bad
+					}
+				}
 			}
 			if confirmed >= 0 {
 				break
@@ -109,10 +118,14 @@ func replayVisit(checker string) func(rc *runCtx, h *harness, v *interp.Violatio
 		}
 		if confirmed < 0 {
 			st := map[string]int{}
+			why := ""
 			for _, r := range results {
 				st[r.Status]++
+				if r.Status == "SKIP" && why == "" {
+					why = " first skip: " + r.Detail
+				}
 			}
-			return false, fmt.Sprintf("%d realisations ran without reproducing (%v)", len(results), st)
+			return false, fmt.Sprintf("%d realisations ran without reproducing (%v)%s", len(results), st, why)
 		}
 		vf["realised"] = []string{sources[confirmed]}
 		vf["checker"] = checker
@@ -120,4 +133,122 @@ func replayVisit(checker string) func(rc *runCtx, h *harness, v *interp.Violatio
 		os.WriteFile(file, out, 0o644)
 		return true, detail + "\n" + sources[confirmed]
 	}
+}
+
+// realiseComments builds source files from the comment groups of a model
+// (file.Comments[i].List[j].Text, or a single group rooted at x).
+func realiseComments(model map[string]interface{}) []string {
+	text := func(key string) string {
+		if s, ok := model[key+"?s"].(string); ok && s != "" {
+			return s
+		}
+		return "// gsx"
+	}
+	num := func(key string) int {
+		if s, ok := model[key].(string); ok {
+			n := 0
+			fmt.Sscan(s, &n)
+			return n
+		}
+		return -1
+	}
+	var groups [][]string
+	if n := num("file.Comments#len"); n > 0 {
+		for i := 0; i < n; i++ {
+			m := num(fmt.Sprintf("file.Comments[%d].List#len", i))
+			if m < 1 {
+				m = 1
+			}
+			var g []string
+			for j := 0; j < m; j++ {
+				g = append(g, text(fmt.Sprintf("file.Comments[%d].List[%d].Text", i, j)))
+			}
+			groups = append(groups, g)
+		}
+	} else if m := num("x.List#len"); m > 0 {
+		if _, isComment := model["x.List[0].Text?s"]; isComment {
+			var g []string
+			for j := 0; j < m; j++ {
+				g = append(g, text(fmt.Sprintf("x.List[%d].Text", j)))
+			}
+			groups = append(groups, g)
+		}
+	}
+	if len(groups) == 0 {
+		return nil
+	}
+	var top, local strings.Builder
+	for _, g := range groups {
+		for _, c := range g {
+			top.WriteString(c + "\n")
+			local.WriteString("\t" + c + "\n")
+		}
+		top.WriteString("\n")
+		local.WriteString("\n")
+	}
+	var eof []string
+	for _, g := range groups {
+		for _, c := range g {
+			// each comment as the very last bytes of the file (no final newline)
+			eof = append(eof, "package cand\n\nfunc gsxF() {}\n\n"+c)
+		}
+	}
+	return append(eof,
+		"package cand\n\nfunc gsxF() {}\n\n" + strings.TrimRight(top.String(), "\n"), // the file ends with the comment group, no final newline
+		"package cand\n\n" + top.String() + "func gsxF() {}\n",
+		"package cand\n\nfunc gsxF() {\n" + local.String() + "}\n",
+		"package cand\n\nfunc gsxF() {\n\t_ = 1\n" + local.String() + "\t_ = 2\n}\n",
+	)
+}
+
+// badDiagnostic checks the diagnostics the real checker produced on a
+// realised program against C07: valid position inside the file, at the start
+// of a token or comment; fix range non-inverted and inside the file; message
+// non-empty and free of formatting-failure artefacts.
+func badDiagnostic(src, wsJSON string) string {
+	var ws []struct {
+		Pos, Text string
+		Valid     bool
+		From, To  int
+		HasFix    bool
+		Offset    int
+	}
+	if err := json.Unmarshal([]byte(wsJSON), &ws); err != nil {
+		return ""
+	}
+	starts := map[int]bool{}
+	fset := token.NewFileSet()
+	file := fset.AddFile("cand.go", -1, len(src))
+	var sc scanner.Scanner
+	sc.Init(file, []byte(src), nil, scanner.ScanComments)
+	for {
+		pos, tok, lit := sc.Scan()
+		if tok == token.EOF {
+			break
+		}
+		if tok == token.SEMICOLON && lit == "\n" {
+			continue
+		}
+		starts[file.Offset(pos)] = true
+	}
+	for _, w := range ws {
+		switch {
+		case !w.Valid:
+			return fmt.Sprintf("diagnostic %q has position %s: not a valid position inside the analysed file", w.Text, w.Pos)
+		case !starts[w.Offset]:
+			return fmt.Sprintf("diagnostic %q at %s (offset %d) does not start at a token or comment of the file", w.Text, w.Pos, w.Offset)
+		case w.Text == "":
+			return "diagnostic with an empty message at " + w.Pos
+		case strings.Contains(w.Text, "%!") || strings.Contains(w.Text, "<nil>"):
+			return fmt.Sprintf("diagnostic message with a formatting artefact: %q", w.Text)
+		}
+		if w.HasFix {
+			// the file set of the native run holds only this file, base 1
+			from, to := w.From-1, w.To-1
+			if w.From == 0 || w.To == 0 || from > to || from < 0 || to > len(src) {
+				return fmt.Sprintf("diagnostic %q has fix range [%d,%d) outside the %d-byte file or inverted", w.Text, from, to, len(src))
+			}
+		}
+	}
+	return ""
 }
